@@ -343,8 +343,8 @@ Proof.
 Qed.
 
 (* ------------------------------------------------------------------ confinement of concatenated programs *)
-Lemma ok_from_app disc i : forall p q a,
-  ok_from disc i a (p ++ q) = ok_from disc i a p && ok_from disc i (fold_left (ast_step disc) p a) q.
+Lemma ok_from_app disc W i : forall p q a,
+  ok_from disc W i a (p ++ q) = ok_from disc W i a p && ok_from disc W i (fold_left (ast_step disc) p a) q.
 Proof.
   induction p as [|s r IH]; intros q a; simpl; [reflexivity|].
   rewrite IH. rewrite andb_assoc. reflexivity.
@@ -371,7 +371,7 @@ Definition spec_ready (i : tid) (a : ast) : Prop :=
 Lemma spec_tag_ok i tok a t :
   spec_ready i a ->
   match t with TParse | TRegSet | TRegGet | TVcReset | TVcDs | TVcDc | TTpSet | TDsOutSet | TDsOutClear | TRaise => True | TTpGet => False end ->
-  ok_from disc_spec i a (steps_of_tag (gmap_spec i) tok t) = true /\
+  ok_from disc_spec W_all i a (steps_of_tag (gmap_spec i) tok t) = true /\
   spec_ready i (fold_left (ast_step disc_spec) (steps_of_tag (gmap_spec i) tok t) a).
 Proof.
   intros [Hh [Hr [Hd [Hc Ho]]]] Ht.
@@ -414,7 +414,7 @@ Definition no_tpget (t : tag) : Prop :=
   match t with TTpGet => False | _ => True end.
 
 Lemma spec_trace_ok i tok : forall tr a, spec_ready i a -> Forall no_tpget tr ->
-  ok_from disc_spec i a (prog_of_trace (gmap_spec i) tok tr) = true.
+  ok_from disc_spec W_all i a (prog_of_trace (gmap_spec i) tok tr) = true.
 Proof.
   induction tr as [|t r IH]; intros a Ha Hf; [reflexivity|].
   inversion Hf as [|t' r' Ht Hr]; subst. unfold prog_of_trace. simpl. rewrite ok_from_app.
@@ -430,7 +430,7 @@ Definition run_tags_spec (n k : nat) : list tag := spec_prefix ++ run_tags n k.
 Lemma rep_forall {A} (P : A -> Prop) n l : Forall P l -> Forall P (rep n l).
 Proof. intros H. induction n; simpl; [constructor | apply Forall_app; split; assumption]. Qed.
 
-Lemma spec_run_confined i tok n k : confined disc_spec i (prog_of_trace (gmap_spec i) tok (run_tags_spec n k)) = true.
+Lemma spec_run_confined i tok n k : confined disc_spec W_all i (prog_of_trace (gmap_spec i) tok (run_tags_spec n k)) = true.
 Proof.
   unfold confined, run_tags_spec, spec_prefix, prog_of_trace.
   change (flat_map (steps_of_tag (gmap_spec i) tok) ([TRegSet; TVcReset; TDsOutClear] ++ run_tags n k))
@@ -446,5 +446,79 @@ Proof.
 Qed.
 
 (* the parse-only calls (create_ast, prettify) are confined in the FAITHFUL model: parser_lock guards the parse state *)
-Lemma parse_confined i tok : confined disc_impl i (prog_of_trace gmap_impl tok parse_tags) = true.
+Lemma parse_confined i tok : confined disc_impl W_all i (prog_of_trace (gmap_impl i) tok parse_tags) = true.
 Proof. reflexivity. Qed.
+
+(* ------------------------------------------------------------------ FAITHFUL (current code): the registry is confined *)
+(* a trace never reads the registry before the call has published its own (visit_Start does set_current_registry first) *)
+Fixpoint reg_wf (seen : bool) (tr : list tag) : bool :=
+  match tr with
+  | [] => true
+  | TRegSet :: r => reg_wf true r
+  | TRegGet :: r => seen && reg_wf seen r
+  | _ :: r => reg_wf seen r
+  end.
+
+Lemma gmap_impl_reg i : gmap_impl i GRegistry = gmap_spec i GRegistry.
+Proof. reflexivity. Qed.
+
+Definition impl_ready (i : tid) (seen : bool) (a : ast) : Prop :=
+  a_held a = [] /\ (seen = true -> In (gmap_impl i GRegistry) (a_fresh a)).
+
+Lemma impl_tag_ok i tok a seen t :
+  impl_ready i seen a ->
+  (match t with TRegGet => seen = true | _ => True end) ->
+  ok_from disc_spec W_reg i a (steps_of_tag (gmap_impl i) tok t) = true /\
+  impl_ready i (match t with TRegSet => true | _ => seen end) (fold_left (ast_step disc_spec) (steps_of_tag (gmap_impl i) tok t) a).
+Proof.
+  intros [Hh Hr] Ht.
+  assert (Eown : disc_spec (gmap_impl i GRegistry) = Owned i).
+  { rewrite gmap_impl_reg. apply disc_spec_tl; unfold GRegistry; lia. }
+  assert (EW : W_reg (gmap_impl i GRegistry) = true).
+  { unfold W_reg, gmap_impl, GRegistry, GParse. simpl. reflexivity. }
+  assert (Enl : locked_by disc_spec PL (gmap_impl i GRegistry) = false).
+  { unfold locked_by. rewrite Eown. reflexivity. }
+  destruct a as [held fresh]. simpl in Hh. subst held. simpl in Hr. unfold impl_ready.
+  destruct t; unfold steps_of_tag.
+  - (* TParse *) cbn -[gmap_impl]. split; [reflexivity|]. split; [reflexivity|].
+    intros Hs. apply filter_In. split; [apply Hr; exact Hs | rewrite Enl; reflexivity].
+  - (* TRegSet *) cbn -[gmap_impl disc_spec W_reg]. rewrite EW. unfold may_access. rewrite Eown, Nat.eqb_refl. simpl.
+    split; [reflexivity|]. split; [reflexivity|]. intros _. left. reflexivity.
+  - (* TRegGet *) cbn -[gmap_impl disc_spec W_reg]. rewrite EW. unfold may_access. rewrite Eown, Nat.eqb_refl.
+    pose proof (proj2 (mem_In _ _) (Hr Ht)) as Hm. unfold mem in Hm. rewrite Hm. split; [reflexivity|]. split; [reflexivity | exact Hr].
+  - (* TVcReset *) cbn. split; [reflexivity|]. split; [reflexivity|]. intros Hs. simpl. right. right. apply Hr. exact Hs.
+  - (* TVcDs *) cbn. split; [reflexivity|]. split; [reflexivity|]. intros Hs. simpl. right. apply Hr. exact Hs.
+  - (* TVcDc *) cbn. split; [reflexivity|]. split; [reflexivity|]. intros Hs. simpl. right. apply Hr. exact Hs.
+  - (* TTpSet *) cbn. split; [reflexivity|]. split; [reflexivity|]. intros Hs. simpl. right. apply Hr. exact Hs.
+  - (* TTpGet *) cbn. split; [reflexivity|]. split; [reflexivity | exact Hr].
+  - (* TDsOutSet *) cbn. split; [reflexivity|]. split; [reflexivity|]. intros Hs. simpl. right. apply Hr. exact Hs.
+  - (* TDsOutClear *) cbn. split; [reflexivity|]. split; [reflexivity|]. intros Hs. simpl. right. apply Hr. exact Hs.
+  - (* TRaise *) cbn. split; [reflexivity|]. split; [reflexivity | exact Hr].
+Qed.
+
+Lemma impl_trace_ok i tok : forall tr a seen, impl_ready i seen a -> reg_wf seen tr = true ->
+  ok_from disc_spec W_reg i a (prog_of_trace (gmap_impl i) tok tr) = true.
+Proof.
+  induction tr as [|t r IH]; intros a seen Ha Hwf; [reflexivity|].
+  unfold prog_of_trace. simpl. rewrite ok_from_app.
+  assert (Ht : match t with TRegGet => seen = true | _ => True end).
+  { destruct t; auto. simpl in Hwf. apply andb_true_iff in Hwf. exact (proj1 Hwf). }
+  destruct (impl_tag_ok i tok a seen t Ha Ht) as [Hok1 Hrdy].
+  rewrite Hok1. simpl. apply (IH _ (match t with TRegSet => true | _ => seen end)); [exact Hrdy|].
+  destruct t; simpl in Hwf; auto. apply andb_true_iff in Hwf. exact (proj2 Hwf).
+Qed.
+
+Lemma impl_trace_confined i tok tr : reg_wf false tr = true ->
+  confined disc_spec W_reg i (prog_of_trace (gmap_impl i) tok tr) = true.
+Proof.
+  intros H. unfold confined. apply (impl_trace_ok i tok tr _ false); [|exact H].
+  split; [reflexivity | discriminate].
+Qed.
+
+(* every value written to a watched global by a skeleton is a constant token *)
+Lemma impl_trace_writes i tok tr : Forall (write_ok W_reg) (prog_of_trace (gmap_impl i) tok tr).
+Proof.
+  unfold prog_of_trace. induction tr as [|t r IH]; simpl; [constructor|].
+  apply Forall_app. split; [|exact IH].
+  destruct t; unfold steps_of_tag; repeat constructor; simpl; try (intros; reflexivity); try discriminate.
+Qed.
